@@ -142,7 +142,16 @@ impl fmt::Debug for Op {
             UpgradeExpectPanic => write!(f, "UpgradeAtMax(w{a})")?,
             DupWeakExpectPanic => write!(f, "DupWeakAtMax(w{a})")?,
             PutG => write!(f, "PutG(v{a}->G)")?,
-            FillBag => write!(f, "FillBag(v{a},MAX-{b})")?,
+            FillBag => {
+                let c = self.c as usize;
+                if c == 0 {
+                    write!(f, "FillBag(v{a},MAX-{b})")?
+                } else if c <= MAXV {
+                    write!(f, "FillBag(v{a}<-clones of v{},MAX-{b})", c - 1)?
+                } else {
+                    write!(f, "FillBag(v{a}<-clones of v{} and the handle itself,MAX-{b})", c - 1 - MAXV)?
+                }
+            },
         }
         if self.fault != NO_FAULT {
             write!(f, "[panic@cp{}]", self.fault)?;
